@@ -1,1 +1,212 @@
-//! engine: logged_hash (see DESIGN.md §4)
+//! E2 — transcript event monitor.
+//!
+//! `Logged<H>` implements the repository's `TranscriptHash` by delegation to `H` and appends an
+//! `Absorb` / `Squeeze` event to a thread-local log. `Hashable<Logged<H>>` / `Sampleable<Logged<H>>`
+//! are implemented for the BLS12-381 commitment and scalar types by delegation (orphan rule: the
+//! hash type is local). Because `create_proof`, `prepare`, `batch_verify` are generic in the hash,
+//! the real code runs unmodified and the log is taken at a trait boundary.
+
+use std::{cell::RefCell, io, io::Read, marker::PhantomData};
+
+use midnight_circuits::hash::poseidon::PoseidonState;
+use midnight_curves::{Fq, G1Projective};
+use midnight_proofs::transcript::{Hashable, Sampleable, TranscriptHash};
+
+/// Byte rendering of hash inputs/outputs so that logs of different hashes are comparable.
+pub trait Bytesable {
+    fn bytes(&self) -> Vec<u8>;
+}
+
+impl Bytesable for Vec<u8> {
+    fn bytes(&self) -> Vec<u8> {
+        self.clone()
+    }
+}
+
+impl Bytesable for Vec<Fq> {
+    fn bytes(&self) -> Vec<u8> {
+        self.iter().flat_map(|f| f.to_bytes_le()).collect()
+    }
+}
+
+impl Bytesable for Fq {
+    fn bytes(&self) -> Vec<u8> {
+        self.to_bytes_le().to_vec()
+    }
+}
+
+impl Bytesable for [u8; 64] {
+    fn bytes(&self) -> Vec<u8> {
+        self.to_vec()
+    }
+}
+
+#[derive(Clone, Debug, PartialEq, Eq, Hash)]
+pub enum TEvent {
+    Init,
+    Absorb(Vec<u8>),
+    Squeeze(Vec<u8>),
+    /// bytes consumed from the proof buffer by a `Hashable::read` (kind: 'P' point, 'S' scalar)
+    Read(char, usize),
+}
+
+impl TEvent {
+    pub fn describe(&self) -> String {
+        match self {
+            TEvent::Init => "init".into(),
+            TEvent::Absorb(b) => format!("absorb[{}] {}", b.len(), hex::encode(&b[..b.len().min(24)])),
+            TEvent::Squeeze(b) => format!("squeeze {}", hex::encode(&b[..b.len().min(24)])),
+            TEvent::Read(k, n) => format!("read {k} {n} bytes"),
+        }
+    }
+}
+
+thread_local! {
+    static LOG: RefCell<Vec<TEvent>> = const { RefCell::new(Vec::new()) };
+    static ENABLED: RefCell<bool> = const { RefCell::new(false) };
+}
+
+/// Clears the log of this thread and starts recording.
+pub fn start_log() {
+    LOG.with(|l| l.borrow_mut().clear());
+    ENABLED.with(|e| *e.borrow_mut() = true);
+}
+
+/// Stops recording and returns the events recorded on this thread.
+pub fn take_log() -> Vec<TEvent> {
+    ENABLED.with(|e| *e.borrow_mut() = false);
+    LOG.with(|l| std::mem::take(&mut *l.borrow_mut()))
+}
+
+fn push(e: TEvent) {
+    if ENABLED.with(|e| *e.borrow()) {
+        LOG.with(|l| l.borrow_mut().push(e));
+    }
+}
+
+#[derive(Clone, Debug)]
+pub struct Logged<H: TranscriptHash>(pub H, PhantomData<H>);
+
+impl<H: TranscriptHash> TranscriptHash for Logged<H>
+where
+    H::Input: Bytesable,
+    H::Output: Bytesable,
+{
+    type Input = H::Input;
+    type Output = H::Output;
+
+    fn init() -> Self {
+        push(TEvent::Init);
+        Logged(H::init(), PhantomData)
+    }
+
+    fn absorb(&mut self, input: &Self::Input) {
+        push(TEvent::Absorb(input.bytes()));
+        self.0.absorb(input)
+    }
+
+    fn squeeze(&mut self) -> Self::Output {
+        let out = self.0.squeeze();
+        push(TEvent::Squeeze(out.bytes()));
+        out
+    }
+}
+
+pub type LBlake = Logged<blake2b_simd::State>;
+pub type LPoseidon = Logged<PoseidonState<Fq>>;
+
+struct CountingReader<'a, R: Read> {
+    inner: &'a mut R,
+    n: usize,
+}
+
+impl<R: Read> Read for CountingReader<'_, R> {
+    fn read(&mut self, buf: &mut [u8]) -> io::Result<usize> {
+        let k = self.inner.read(buf)?;
+        self.n += k;
+        Ok(k)
+    }
+}
+
+macro_rules! delegate {
+    ($hash:ty, $inner:ty) => {
+        impl Hashable<$hash> for G1Projective {
+            fn to_input(&self) -> <$hash as TranscriptHash>::Input {
+                <G1Projective as Hashable<$inner>>::to_input(self)
+            }
+            fn to_bytes(&self) -> Vec<u8> {
+                <G1Projective as Hashable<$inner>>::to_bytes(self)
+            }
+            fn read(buffer: &mut impl Read) -> io::Result<Self> {
+                let mut cr = CountingReader {
+                    inner: buffer,
+                    n: 0,
+                };
+                let r = <G1Projective as Hashable<$inner>>::read(&mut cr);
+                push(TEvent::Read('P', cr.n));
+                r
+            }
+        }
+        impl Hashable<$hash> for Fq {
+            fn to_input(&self) -> <$hash as TranscriptHash>::Input {
+                <Fq as Hashable<$inner>>::to_input(self)
+            }
+            fn to_bytes(&self) -> Vec<u8> {
+                <Fq as Hashable<$inner>>::to_bytes(self)
+            }
+            fn read(buffer: &mut impl Read) -> io::Result<Self> {
+                let mut cr = CountingReader {
+                    inner: buffer,
+                    n: 0,
+                };
+                let r = <Fq as Hashable<$inner>>::read(&mut cr);
+                push(TEvent::Read('S', cr.n));
+                r
+            }
+        }
+        impl Sampleable<$hash> for Fq {
+            fn sample(out: <$hash as TranscriptHash>::Output) -> Self {
+                <Fq as Sampleable<$inner>>::sample(out)
+            }
+        }
+    };
+}
+
+delegate!(LBlake, blake2b_simd::State);
+delegate!(LPoseidon, PoseidonState<Fq>);
+
+/// Layout of a proof as observed from the verifier's reads: `(kind, offset, len)` per element.
+pub fn layout_from_log(log: &[TEvent]) -> Vec<(char, usize, usize)> {
+    let mut off = 0usize;
+    let mut v = vec![];
+    for e in log {
+        if let TEvent::Read(k, n) = e {
+            v.push((*k, off, *n));
+            off += n;
+        }
+    }
+    v
+}
+
+/// Strips `Read` and `Init` events (the prover has none of the former) for prover/verifier
+/// comparison.
+pub fn hash_events(log: &[TEvent]) -> Vec<TEvent> {
+    log.iter().filter(|e| matches!(e, TEvent::Absorb(_) | TEvent::Squeeze(_))).cloned().collect()
+}
+
+/// First index at which two event sequences differ.
+pub fn first_divergence(a: &[TEvent], b: &[TEvent]) -> Option<(usize, String, String)> {
+    let n = a.len().max(b.len());
+    for i in 0..n {
+        let ea = a.get(i);
+        let eb = b.get(i);
+        if ea != eb {
+            return Some((
+                i,
+                ea.map(|e| e.describe()).unwrap_or_else(|| "<end>".into()),
+                eb.map(|e| e.describe()).unwrap_or_else(|| "<end>".into()),
+            ));
+        }
+    }
+    None
+}
